@@ -363,7 +363,7 @@ def run(tier, seed):
         pkeys.append(ks)
     piece_groups = groups_of(pkeys)
     rng = random.Random(seed)
-    nshuf = 24 if tier == "quick" else 200
+    nshuf = 24 if tier == "quick" else 600
     nrot = 8 if tier == "quick" else 16
     jobs = [("perm", "identity", list(range(n))), ("perm", "reversed", list(reversed(range(n)))),
             ("perm", "dependency-reversed", dependency_reversed(entries))]
@@ -386,7 +386,7 @@ def run(tier, seed):
     run.extra_cov["text_pieces"] = m
     for res in shard_map(work_bundled, split(jobs, nproc()), (seed, n, groups, pieces, piece_groups)):
         run.merge(res)
-    ndb = 240 if tier == "quick" else 2000
+    ndb = 240 if tier == "quick" else 20000
     shuffles = 3 if tier == "quick" else 6
     seeds = [seed * 7919 + i for i in range(ndb)]
     for res in shard_map(work_generated, split(seeds, nproc() * 2), (seed, shuffles)):
